@@ -48,3 +48,24 @@ package dst
 //@ modifies nothing
 //@ ensures header_identity: arr(result) == arr(*d) && off(result) == off(*d) && len(result) == len(*d) && cap(result) == cap(*d)
 //@ ensures unchanged: arr(*d) == old(arr(*d)) && off(*d) == old(off(*d)) && len(*d) == old(len(*d)) && cap(*d) == old(cap(*d))
+
+// ---------------------------------------------------------------------------------------------
+// Clone (clone-generated.go)
+//
+// cloneOf is uninterpreted: the only way to establish it is Clone's own postcondition, so a field
+// of the result that satisfies it was produced by a Clone call on the corresponding field.
+// The per-type obligations (every field and every decoration copied, lists and decoration
+// slices on fresh backing arrays, objects and scopes dropped) are expanded by the machinery
+// from the struct definitions in dst.go, one unit per node type.
+
+//@ uninterp func cloneOf(out Node, n Node) bool
+
+//@ func Clone
+//@ modifies newobjects
+//@ ensures is_clone: cloneOf(result, n)
+//@ ensures same_type: typeof(result) == typeof(n)
+//@ ensures is_fresh: ref(result) != 0 && !wasAllocated(ref(result)) && allocated(ref(result))
+//@ foreach invariant count: 0 <= $i && $i <= len($src)
+//@ foreach invariant length: len($dst) == $i
+//@ foreach invariant elems: forall j int :: 0 <= j && j < $i ==> cloneOf($dst[j], $src[j])
+//@ foreach invariant backing: $i == 0 ? $dst == nil : !wasAllocated(arr($dst))
